@@ -223,6 +223,15 @@ def _modify_corpus():
                     "copies": [{"file": 0, "node": "n1", "has": "X", "wants": "Y", "disk": disk}],
                     "reqs": [{"file": 0, "from": "n1", "to": "g2", "state": "pending"}], "rules": [], "unregistered": [], "ireqs": []}
             out.append((spec, [("iter", "h1"), ("iter", "h2"), ("iter", "h1"), ("iter", "h2")]))
+    # a transport that stalls and is killed by the pull time-out, over a destination copy recorded corrupt: nothing becomes healthy
+    for tool in ("rsync", "bbcp"):
+        spec = {"groups": [{"name": "g1"}, {"name": "g2"}],
+                "nodes": [{"name": "n1", "group": "g1", "stype": "F", "host": "h1", "active": True, "username": "u", "address": "addr"},
+                          {"name": "n2", "group": "g2", "stype": "A", "host": "h2", "active": True, "username": "u", "address": "addr"}],
+                "acqs": ["acq1"], "files": [{"acq": "acq1", "name": "data.bin", "size": 150}],
+                "copies": [{"file": 0, "node": "n1", "has": "Y", "wants": "Y"}, {"file": 0, "node": "n2", "has": "X", "wants": "Y", "disk": "truncated"}],
+                "reqs": [{"file": 0, "from": "n1", "to": "g2", "state": "pending"}], "rules": [], "unregistered": [], "ireqs": []}
+        out.append((spec, [("tools", tool, {tool: "hang"}), ("iter", "h2"), ("iter", "h2")]))
     # a file still being written under the lock protocol (.NAME.lock beside it) is left alone until the writer is done
     for name in ("data.h5", "run.7.raw", "plain"):
         spec = {"groups": [{"name": "g1"}], "nodes": [{"name": "n1", "group": "g1", "stype": "A", "host": "h1", "active": True, "username": "u", "address": "addr"}],
